@@ -5,6 +5,7 @@ import (
 	"fmt"
 	"image"
 	"image/color"
+	"math"
 
 	"github.com/reactivego/ivg"
 	"github.com/reactivego/ivg/decode"
@@ -152,6 +153,43 @@ func driveC09(args []string) error {
 	for i := 0; i < nr; i++ {
 		writeCReg([]int{0, rng.Intn(256), rng.Intn(256), rng.Intn(256), rng.Intn(256)}, rng.Intn(7), false)
 	}
+	// an Encoder that was Reset with a suggested palette holding the very colour: the colour is still written as the
+	// colour (a reference to the palette entry would follow the palette the viewer substitutes)
+	for k := 0; k < 6; k++ {
+		var pal [64]color.RGBA
+		for i := range pal {
+			a := rng.Intn(256)
+			if k%2 == 1 && i%3 == 0 {
+				a = 255
+			}
+			pal[i] = color.RGBA{uint8(rng.Intn(a + 1)), uint8(rng.Intn(a + 1)), uint8(rng.Intn(a + 1)), uint8(a)}
+			if k == 5 && i%4 == 1 {
+				v := uint8(rng.Intn(16) * 0x11)
+				pal[i] = color.RGBA{v, v, v, 0xff} // 2-byte and 1-byte colours as well
+			}
+		}
+		for i := 0; i < 64; i++ {
+			var e encode.Encoder
+			e.Reset(ivg.ViewBox{MinX: -8, MinY: -8, MaxX: 8, MaxY: 8}, pal)
+			b0, err := e.Bytes()
+			if err != nil {
+				return err
+			}
+			n0 := len(b0)
+			c := []int{0, int(pal[i].R), int(pal[i].G), int(pal[i].B), int(pal[i].A)}
+			adj := (i + k) % 7
+			if i%5 == 0 {
+				adj = 0 // the incrementing form has no adjustment
+			}
+			e.SetCReg(uint8(adj), i%5 == 0, mkColor(c))
+			b1, err := e.Bytes()
+			if err != nil {
+				return err
+			}
+			t := b1[n0:]
+			emit(colEv{Ev: "creg", Path: "Encoder.SetCReg/in-palette", C: c, Adj: adj, Incr: b2i(i%5 == 0), Op: int(t[0]), B: bytesJ(t[1:])})
+		}
+	}
 	// gradient-encoding values
 	for ns := 0; ns < 64; ns += 3 {
 		for _, base := range []int{0, 10, 63} {
@@ -226,6 +264,7 @@ func driveC09(args []string) error {
 	}
 
 	// ---- blends and indirections resolved ---------------------------------------------------
+	nres := 0
 	for ci, cx := range ctxs {
 		resolve := func(c []int) {
 			pal, creg := cx.pal, cx.creg
@@ -256,8 +295,18 @@ func driveC09(args []string) error {
 					}
 				}
 				z.SetCSel(uint8(tgt))
+				path := "Renderer.SetCReg"
+				nres++
+				if nres%4 == 1 {
+					// a level-of-detail range that excludes the target's height (8) switches drawing off, not styling: the
+					// register is written all the same
+					lods := [][2]float32{{0, 8}, {9, float32(math.Inf(1))}, {0, 0}, {8.5, 100}, {100, 1}}
+					ld := lods[nres/4%len(lods)]
+					z.SetLOD(ld[0], ld[1])
+					path = "Renderer.SetCReg/lod"
+				}
 				z.SetCReg(0, false, mkColor(c))
-				emit(colEv{Ev: "resolve", Path: "Renderer.SetCReg", C: c, Ctx: ci + 1, Res: rgbaJ(z.VerifState().CReg[tgt])})
+				emit(colEv{Ev: "resolve", Path: path, C: c, Ctx: ci + 1, Res: rgbaJ(z.VerifState().CReg[tgt])})
 			}
 		}
 		for i := 0; i < 64; i++ {
@@ -475,8 +524,16 @@ func driveC09(args []string) error {
 			"only5":    mk(func(p *[64]color.RGBA) { p[5] = nc }),
 			"trailing": mk(func(p *[64]color.RGBA) { p[0] = color.RGBA{0x40, 0x80, 0xc0, 0xff}; p[1] = nc; p[2] = nc }),
 			"leading":  mk(func(p *[64]color.RGBA) { p[0] = nc; p[1] = color.RGBA{0x10, 0x20, 0x30, 0x40} }),
-			"between":  mk(func(p *[64]color.RGBA) { p[3] = color.RGBA{1, 2, 3, 0xff}; p[4] = nc; p[9] = color.RGBA{0x33, 0x88, 0, 0xff} }),
-			"all":      mk(func(p *[64]color.RGBA) { for j := range p { p[j] = nc } }),
+			"between": mk(func(p *[64]color.RGBA) {
+				p[3] = color.RGBA{1, 2, 3, 0xff}
+				p[4] = nc
+				p[9] = color.RGBA{0x33, 0x88, 0, 0xff}
+			}),
+			"all": mk(func(p *[64]color.RGBA) {
+				for j := range p {
+					p[j] = nc
+				}
+			}),
 		}
 		for _, name := range []string{"only0", "only63", "only5", "trailing", "leading", "between", "all"} {
 			if err := palette(fmt.Sprintf("nonsense/%d/%s", k, name), cases[name]); err != nil {
